@@ -70,7 +70,7 @@ def run_cli(repo, outfile=None, lst=False, implicit_bin=False, emitted=None, com
             return BASE, CODE
 
         def emit_files(I2, aa, kk):
-            events.append(("emit_files", aa[1], aa[2]))
+            events.append(("emit_files", aa[1] if len(aa) > 1 else kk.get("base"), aa[2] if len(aa) > 2 else kk.get("code")))
             if emit_error:
                 I2.call(I2.module_get("reports", "error"), ["io-error", (sym.var("s", "obj"), sym.var("e", "obj"), "text")], {})
             if emitted is None:
